@@ -21,7 +21,7 @@ REQUIRED_THEOREMS = ["PycModel.Tables.impl_prec_is_c99", "PycModel.Tables.impl_a
                      "PycModel.FullExpr.parse_full", "PycModel.FullExpr.all_ok", "PycModel.FullExpr.cps_post", "PycModel.FullExpr.cps_index", "PycModel.FullExpr.cps_call", "PycModel.FullExpr.cps_member", "PycModel.FullExpr.un_pre", "PycModel.FullExpr.un_szof", "PycModel.FullExpr.un_of_cps", "PycModel.FullExpr.cast_of_un", "PycModel.FullExpr.pConstant_ok", "PycModel.C02.expression_skeleton_parses_as_the_grammar_says"]
 LEVEL = "proof"
 TRUSTED = ["Spec/Expr.lean: our reading of C99 6.5 (strata, associativity) and of the documented AST shapes"]
-ASSUMPTIONS = ["type names inside expressions (casts, sizeof(type), compound literals) are exercised by C03/C04, not here"]
+ASSUMPTIONS = ["of the expressions that contain a type name only casts (to seven keyword / pointer type names) are in the specification language; sizeof(type), compound literals, _Alignof and offsetof are exercised by C03/C04/C01"]
 
 
 def run(ctx):
